@@ -64,7 +64,38 @@ def run(ctx):
         scen.append({"id": "aged%d" % i, "steps": steps})
     for i in range(3 if quick else 200):
         scen.append({"id": "gatewarm%d" % i, "steps": [{"a": "new", "h": 1, "off": 0}, {"a": "submit", "h": 1}, {"a": "gate", "h": 2, "off": 0}, {"a": "submit", "h": 1}, {"a": "submit", "h": 2}]})
-    binary = ctx.go_build("./cmd/c04")
+    # the bridge's clock moves (a time.Now() that the driver can shift forward: vlib/core.py patched_time_go; the bridge, its
+    # filter and the reference client all read it): every minute of the hour at which the window is evaluated, and histories
+    # across hours - a handshake accepted in hour H is a replay in H+1 and out of the window in H+2; one stamped two hours
+    # ahead is refused, and accepted (once) an hour later, whatever was done with it before
+    binary = ctx.go_build("./cmd/c04", clock=True)
+    clock = binary is not None
+    if not clock:
+        binary = ctx.go_build("./cmd/c04")
+        ctx.assumptions.append("this Go's time.go could not be patched: the scenarios that move the bridge's clock were left out")
+    else:
+        k = 0
+        for rep_ in range(1 if quick else 6):
+            for minute in (0, 15, 29, 30, 31, 45, 59):
+                steps = [{"a": "setminute", "n": minute}]
+                hh = 0
+                for off in (-3, -2, -1, 0, 1, 2, 3):
+                    hh += 1
+                    steps += [{"a": "new", "h": hh, "off": off}, {"a": "submit", "h": hh}, {"a": "submit", "h": hh}]
+                scen.append({"id": "minute%d" % k, "steps": steps}); k += 1
+            for var in range(3):
+                steps = [{"a": "setminute", "n": [10, 40, 58][var]}]
+                for hh, off in ((1, 0), (2, 1), (3, 2), (4, -1), (5, 3)):
+                    steps += [{"a": "new", "h": hh, "off": off}, {"a": "submit", "h": hh}]
+                if var == 1:
+                    # a damaged copy of the handshake that is still ahead of the window is seen first: it must not spoil the original
+                    steps += [{"a": "submit", "h": 3}]
+                steps += [{"a": "shift", "n": 3600}]
+                steps += [{"a": "submit", "h": hh} for hh in (1, 2, 3, 4, 5, 3)]
+                steps += [{"a": "new", "h": 6, "off": 0}, {"a": "submit", "h": 6}, {"a": "shift", "n": 3600}]
+                steps += [{"a": "submit", "h": hh} for hh in (1, 2, 3, 5, 6, 5)]
+                steps += [{"a": "shift", "n": 3600}] + [{"a": "submit", "h": hh} for hh in (5, 6, 2)]
+                scen.append({"id": "hours%d" % k, "steps": steps}); k += 1
     traces = ctx.exec_scenarios(binary, scen, "c04", shards=12, timeout=3000)
     if len(traces) != len(scen) and not any(t.get("crashed") for t in traces):
         raise Inconclusive("%d scenarios, %d traces" % (len(scen), len(traces)))
